@@ -827,6 +827,76 @@ def gen_case(rng, kind, idx=None):
         headers = [HEADERS[h]] * len(blocks)
         probes, world = build_world_and_probes(rng, blocks, headers, unsized=True, nprobes=14, impl_rate=0.9)
         return Case(kind, 'K', '', blocks, probes, world)
+    elif kind == 'chain3':
+        # a chain of three headers (T > Vec<T> > Vec<Vec<T>>, alone or inside a pair), one block each
+        # (optionally two at the root), every order of the blocks is a different processing order
+        wrap = pk.choice(['{T0}', '({T0}, {T1})', '({T1}, {T0})'])
+        used = ['T0'] + (['T1'] if '{T1}' in wrap else [])
+        lv = ['{T0}', 'Vec<{T0}>', 'Vec<Vec<{T0}>>']
+        if pk.choice([False, True]):
+            lv = ['{T0}', 'Option<{T0}>', 'Option<Vec<{T0}>>']
+        tr = pk.choice(['D', 'D2'])
+        rows = ['GA', 'GB', 'GC']
+        specs = [(0, 'GA'), (1, 'GB'), (2, 'GC')] + ([(0, 'GB')] if pk.choice([False, True]) else [])
+        order = pk.choice([[0, 2, 1], [2, 0, 1], [2, 1, 0], [0, 1, 2], [1, 2, 0], [1, 0, 2]])
+        blocks, headers = [], []
+        for (level, g) in specs:
+            self_fmt = wrap.replace('{T0}', lv[level])
+            slots = mk_slots(rng, used)
+            blocks.append(Block(dict(slots), None, self_fmt, [(lv[level], tr, {'G': g}, 'where' if level else rng.choice(['inline', 'where']))], 'b'))
+            headers.append((self_fmt, used))
+        idx_order = order + list(range(3, len(blocks)))
+        blocks = [blocks[i] for i in idx_order]; headers = [headers[i] for i in idx_order]
+        for i, b in enumerate(blocks):
+            b.tag = 'b%d' % i
+        probes, world = build_world_and_probes(rng, blocks, headers, nprobes=8, impl_rate=0.95, prefer_rate=0.7)
+        return Case(kind, 'K', '', blocks, probes, world)
+    elif kind == 'overlap_repeat':
+        # a key repeated with another key written in between, the binding on the later occurrence:
+        #   b0: T: D<G = GA>      b1: T: D2 + D, where T: D2<G = GB>
+        # b1 leaves (T, D) open, so a type with D<G = GA> and D2<G = GB> satisfies both blocks
+        h = pk.choice(['T', 'vec', 'pair'])
+        self_fmt, used = HEADERS[h]
+        ta, tb = pk.choice([('D', 'D2'), ('D2', 'D'), ('D', 'Dp'), ('Dp<u8>', 'D')])
+        pl = lambda: rng.choice(['inline', 'where'])
+        b0 = Block(mk_slots(rng, used), None, self_fmt, [('{T0}', ta, {'G': 'GA'}, pl())], 'b0')
+        first = pk.choice(['inline', 'where'])
+        b1 = Block(mk_slots(rng, used), None, self_fmt, [('{T0}', tb, {}, first), ('{T0}', ta, {}, first), ('{T0}', tb, {'G': 'GB'}, 'where')], 'b1')
+        blocks = [b0, b1] if pk.choice([True, False]) else [b1, b0]
+        for i, b in enumerate(blocks):
+            b.tag = 'b%d' % i
+        headers = [HEADERS[h]] * 2
+        probes, world = build_world_and_probes(rng, blocks, headers, nprobes=6, impl_rate=1.0)
+        for (ty, trt) in list(world):
+            if trt == ta:
+                world[(ty, trt)] = {a: 'GA' for a in assocs_of(ta)}
+            if trt == tb:
+                world[(ty, trt)] = {a: 'GB' for a in assocs_of(tb)}
+        return Case(kind, 'K', '', blocks, probes, world)
+    elif kind == 'refmut':
+        # two headers that differ only in the mutability of a reference (at the top or inside a
+        # tuple), with payloads that do not collide across the two: two families
+        inner = pk.choice(['{T0}', '({T0}, X0)', 'Vec<{T0}>'])
+        ha = ("&{L0} %s" % inner, ['L0', 'T0'])
+        hb = ("&{L0} mut %s" % inner, ['L0', 'T0'])
+        if pk.choice([False, True]):
+            ha, hb = ('(%s, X1)' % ha[0], ha[1]), ('(%s, X1)' % hb[0], hb[1])
+        tr = pk.choice(['D', 'D2'])
+        g = rng.sample(GROUPS, 3)
+        split = pk.choice([1, 2])
+        blocks, headers = [], []
+        for i in range(3):
+            h = ha if i < split else hb
+            slots = mk_slots(rng, h[1])
+            order = [x for x in slots if x[0] == 'L'] + [x for x in slots if x[0] != 'L']
+            blocks.append(Block({x: slots[x] for x in order}, None, h[0], [('{T0}', tr, {'G': g[i]}, rng.choice(['inline', 'where']))], 'b%d' % i))
+            headers.append(h)
+        order = list(range(3)); rng.shuffle(order)
+        blocks = [blocks[i] for i in order]; headers = [headers[i] for i in order]
+        for i, b in enumerate(blocks):
+            b.tag = 'b%d' % i
+        probes, world = build_world_and_probes(rng, blocks, headers, nprobes=8, impl_rate=0.95, prefer_rate=0.6)
+        return Case(kind, 'K', '', blocks, probes, world)
     elif kind == 'twokeys':
         # one parameter dispatched on through TWO traits (the same path at two argument lists, two
         # traits with the same last segment at different depths, ..) and the other parameter
